@@ -33,7 +33,8 @@ EXTENDS Names
 (*                    which RFC 3597 s.4 allows a sender to compress; `name'   *)
 (*                    must never be compressed on output.                      *)
 (*  str               <character-string>: 0..255 octets, one length octet      *)
-(*  strs              one or more <character-string>s up to the end of RDATA   *)
+(*  strs              <character-string>s up to the end of RDATA (a list of    *)
+(*                    none = empty RDATA)                                      *)
 (*  ostr              an optional trailing <character-string>: <<>> or <<s>>   *)
 (*  hex b64 raw octet opaque octets up to the end of RDATA (they differ only   *)
 (*                    in how the Go API spells them: hex / base64 text, raw    *)
@@ -507,7 +508,9 @@ WFKind(k, v) ==
     [] k \in OpaqueKinds -> IsOctets(v)
     [] k \in {"name", "cname"} -> WFName(v)
     [] k = "str"     -> WFStr(v)
-    [] k = "strs"    -> Len(v) >= 1 /\ \A i \in 1..Len(v) : WFStr(v[i])
+    [] k = "strs"    -> \A i \in 1..Len(v) : WFStr(v[i])     \* RFC 1035 s.3.3.14: one or more; the list of NO strings encodes to no
+                                                            \* octets at all: it is the RDATA-less form (what a record unpacked
+                                                            \* from RDLENGTH 0 holds), never a stray empty string
     [] k = "ostr"    -> Len(v) <= 1 /\ \A i \in 1..Len(v) : WFStr(v[i])
     [] k = "lstrs"   -> \A i \in 1..Len(v) : WFStr(v[i]) /\ Len(v[i]) >= 1
     [] k = "names"   -> \A i \in 1..Len(v) : WFName(v[i])
